@@ -47,12 +47,30 @@ func (w *World) checkC27() {
 			}
 		})
 	}
-	connected := map[int]map[uint64]bool{} // server -> client id -> reachable
+	// per (server, client) dial outcome, scripted: ok | nodirect | error. A route
+	// through a remote server is answered by that server's real proxy handler,
+	// which turns its own dial outcome into a status frame (OK / NO_DIRECT /
+	// UNKNOWN_ERROR); proxyDown makes the dial to the remote server itself fail.
+	outcome := map[int]map[uint64]string{}
+	proxyDown := map[int]map[string]bool{} // gateway -> remote chord address -> dial fails
 	for si, s := range w.servers {
-		connected[si] = map[uint64]bool{}
+		outcome[si] = map[uint64]string{}
+		proxyDown[si] = map[string]bool{}
 		s.TunT.DialHook = func(peer *protocol.Node, kind protocol.Stream_Type) error {
-			if kind == protocol.Stream_DIRECT && !connected[si][peer.GetId()] {
-				return transport.ErrNoDirect
+			if kind != protocol.Stream_DIRECT {
+				return nil
+			}
+			switch outcome[si][peer.GetId()] {
+			case "ok":
+				return nil
+			case "error":
+				return errors.New("scripted: connection to the client broke")
+			}
+			return transport.ErrNoDirect
+		}
+		s.ChordT.DialHook = func(peer *protocol.Node, kind protocol.Stream_Type) error {
+			if kind == protocol.Stream_PROXY && proxyDown[si][peer.GetAddress()] {
+				return errors.New("scripted: remote node unreachable")
 			}
 			return nil
 		}
@@ -63,64 +81,95 @@ func (w *World) checkC27() {
 		nroutes := r.Intn(4)
 		type rt struct {
 			server, client int
-			up             bool
+			out            string
 		}
+		gw := r.Intn(len(w.servers))
 		var routes []rt
 		for k := 0; k < nroutes; k++ {
-			x := rt{server: r.Intn(len(w.servers)), client: r.Intn(len(w.clients)), up: r.Chance(0.6)}
-			routes = append(routes, x)
+			x := rt{server: r.Intn(len(w.servers)), client: r.Intn(len(w.clients))}
 			s, c := w.servers[x.server], w.clients[x.client]
-			if x.up {
-				connected[x.server][c.Verified.GetId()] = true
+			// one outcome per (server, client) pair within a hostname
+			if prev, ok := outcome[x.server][c.Verified.GetId()]; ok {
+				x.out = prev
+			} else {
+				x.out = []string{"ok", "ok", "nodirect", "nodirect", "error"}[r.Intn(5)]
+				outcome[x.server][c.Verified.GetId()] = x.out
 			}
+			if x.server != gw && r.Intn(6) == 0 {
+				proxyDown[gw][s.ChordT.Identity().GetAddress()] = true
+			}
+			routes = append(routes, x)
 			b, _ := (&protocol.TunnelRoute{ClientDestination: c.Verified, ChordDestination: s.ChordT.Identity(), TunnelDestination: s.TunT.Identity(), Hostname: host}).MarshalVT()
 			w.cluster.Slots[0].Node.Put(context.Background(), []byte(tun.RoutingKey(host, k+1)), b)
 		}
-		// a client may be reachable at a server through another hostname's route: recompute reachability per route
-		gw := r.Intn(len(w.servers))
+		// effective outcome of each route as seen from the gateway
+		eff := func(x rt) string {
+			if x.server != gw && proxyDown[gw][w.servers[x.server].ChordT.Identity().GetAddress()] {
+				return "error"
+			}
+			return x.out
+		}
 		ctx, cancel := context.WithTimeout(w.ctx, 20*time.Second)
 		conn, err := w.servers[gw].S.DialClient(ctx, &protocol.Link{Alpn: protocol.Link_TCP, Hostname: host})
 		cancel()
-		anyUp := false
+		anyUp, anyNoDirect := false, false
 		allowedClients := map[int]bool{}
+		localUpClients := map[int]bool{}
+		vec := ""
 		for _, x := range routes {
-			allowedClients[x.client] = true
-			if connected[x.server][w.clients[x.client].Verified.GetId()] {
+			e := eff(x)
+			loc := "remote"
+			if x.server == gw {
+				loc = "local"
+			}
+			vec += fmt.Sprintf("[%s %s]", loc, e)
+			switch e {
+			case "ok":
 				anyUp = true
+				allowedClients[x.client] = true
+				if x.server == gw {
+					localUpClients[x.client] = true
+				}
+			case "nodirect":
+				anyNoDirect = true
 			}
 		}
+		simrt.Probe("c27-vector/" + fmt.Sprint(len(routes)))
 		switch {
 		case len(routes) == 0:
 			if !errors.Is(err, tun.ErrDestinationNotFound) {
 				w.res.Violate("C27", "no-routes-outcome", "hostname without routes: DialClient returned %v", err)
 			}
-		case !anyUp:
+		case !anyUp && anyNoDirect:
+			simrt.Probe("c27-unreachable-mixed")
 			if !errors.Is(err, tun.ErrTunnelClientNotConnected) {
-				w.res.Violate("C27", "unreachable-outcome", "hostname whose %d routes all name unreachable clients: DialClient returned %v (want not-connected)", len(routes), err)
+				w.res.Violate("C27", "unreachable-outcome", "hostname with routes %s, none of whose clients is reachable (at least one is simply not connected): DialClient returned %v (want not-connected)", vec, err)
+			}
+		case !anyUp:
+			simrt.Probe("c27-unreachable-all-errors")
+			if !errors.Is(err, tun.ErrTunnelClientNotConnected) {
+				w.res.Violate("C27", "unreachable-all-dials-failed", "hostname with routes %s, every dial failed with an error: DialClient returned %v (the hostname has routes and no reachable client: want not-connected)", vec, err)
 			}
 		default:
 			if err != nil {
-				w.res.Violate("C27", "reachable-but-failed", "hostname %s has a route to a connected client (routes %+v, gateway %d) but DialClient failed: %v", host, routes, gw, err)
+				w.res.Violate("C27", "reachable-but-failed", "hostname %s has a route to a connected client (routes %s, gateway %d) but DialClient failed: %v", host, vec, gw, err)
 				break
 			}
 			select {
 			case a := <-arrivals:
 				simrt.Yield("h:arrival")
 				if !allowedClients[a.client] {
-					w.res.Violate("C27", "handed-to-wrong-client", "a connection for %s reached client %d, which is not in its routes %+v", host, a.client, routes)
+					w.res.Violate("C27", "handed-to-wrong-client", "a connection for %s reached client %d, which is not a reachable client of its routes %s", host, a.client, vec)
 				}
 				if a.host != host {
 					w.res.Violate("C27", "wrong-link", "the client received link %q for a connection to %s", a.host, host)
 				}
-				// local routes first: if a local route to a connected client exists, no proxy stream may have been opened for this hostname
-				localUp := false
-				for _, x := range routes {
-					if x.server == gw && connected[gw][w.clients[x.client].Verified.GetId()] {
-						localUp = true
-					}
-				}
-				if localUp {
+				// routes through the local node are tried first
+				if len(localUpClients) > 0 {
 					simrt.Probe("local-route-available")
+					if !localUpClients[a.client] {
+						w.res.Violate("C27", "local-route-not-first", "hostname %s (routes %s) has a reachable client on the gateway itself, but the connection went to client %d through another node", host, vec, a.client)
+					}
 				}
 			case <-time.After(10 * time.Second):
 				w.res.Violate("C27", "no-client-reached", "DialClient returned a stream for %s but no client received a link", host)
@@ -146,9 +195,10 @@ func (w *World) checkC27() {
 				done = true
 			}
 		}
-		// reset reachability for the next hostname
-		for si := range connected {
-			connected[si] = map[uint64]bool{}
+		// reset the scripted outcomes for the next hostname
+		for si := range outcome {
+			outcome[si] = map[uint64]string{}
+			proxyDown[si] = map[string]bool{}
 		}
 	}
 	simrt.Probe("c27-checked")
